@@ -29,6 +29,7 @@ func init() {
 			c11DebugPassthrough(c)
 			c11HeadEnd(c)
 			c11SniffSnapshot(c)
+			parserHelperRules(c, "C11")
 		},
 	})
 }
